@@ -342,6 +342,19 @@ fn gen_pattern(t: &mut Tape, targets: &[(String, bool)], icase: bool, first: boo
     let comps: Vec<&str> = rel.split('/').collect();
     let n = comps.len();
     let seg = |t: &mut Tape, c: &str| glob_seg(t, c, icase);
+    // `**/*.ext/rest`: an extension-looking component that is a directory
+    // (globset has a special strategy for `**/*.ext`, which must not swallow
+    // path separators)
+    if t.chance(1, 12) {
+        if let Some(i) = comps[..n - 1].iter().position(|c| c.contains('.') && !c.ends_with('.') && !c.starts_with('.')) {
+            let ext = comps[i].rsplit('.').next().unwrap();
+            let rest = comps[i + 1..].join("/");
+            let clean = |x: &str| x.chars().all(|c| c.is_ascii_alphanumeric() || c == '/' || c == '_' || c == '-');
+            if clean(ext) && clean(&rest) && !ext.is_empty() {
+                return decorate(t, format!("**/*.{ext}/{rest}"), is_dir, first, false);
+            }
+        }
+    }
     let mut pat = match t.weighted(&[40, 22, 8, 10, 8, 8, 4]) {
         0 => seg(t, comps[n - 1]),
         1 => comps.iter().map(|c| seg(t, c)).collect::<Vec<_>>().join("/"),
